@@ -115,7 +115,14 @@ func (p *patParser) term() *pat {
 		}
 	}
 	r := &pat{op: op}
-	if p.i < len(p.s) && p.s[p.i] == '<' {
+	if (op == "bin" || op == "un") && p.i < len(p.s) && p.s[p.i] == '<' {
+		k := strings.Index(p.s[p.i+1:], ">(")
+		if k < 0 {
+			panic("pattern: unterminated operator name in " + p.s)
+		}
+		r.name = p.s[p.i+1 : p.i+1+k]
+		p.i = p.i + 1 + k + 1
+	} else if p.i < len(p.s) && p.s[p.i] == '<' {
 		depth, j := 0, p.i
 		for ; j < len(p.s); j++ {
 			if p.s[j] == '<' {
